@@ -313,7 +313,9 @@ impl Drop for VerifDeque {
 /// What a thread holds between the map step of an `insert` / `invalidate` and the enqueue of
 /// its write operation (phase-split API of the concurrent cache, used to replay interleavings
 /// deterministically).
+#[cfg(mini_moka_verif_phase)]
 pub struct PendingWrite<K, V>(pub(crate) crate::common::concurrent::WriteOp<K, V>);
 
 /// What a thread holds between the lookup of a `get` and the enqueue of its read operation.
+#[cfg(mini_moka_verif_phase)]
 pub struct PendingRead<K, V>(pub(crate) crate::common::concurrent::ReadOp<K, V>);
